@@ -2,15 +2,15 @@
 import os
 from tools.py2lean import gen_c10
 
-LEAN_TARGETS = ["EasyFEAVerif.Props.C10", "EasyFEAVerif.Props.C10Pressure"]
-PROPS_MODULES = ["EasyFEAVerif.Props.C10", "EasyFEAVerif.Props.C10Pressure"]
+LEAN_TARGETS = ["EasyFEAVerif.Props.C10", "EasyFEAVerif.Props.C10Pressure", "EasyFEAVerif.Props.C10Frame"]
+PROPS_MODULES = ["EasyFEAVerif.Props.C10", "EasyFEAVerif.Props.C10Pressure", "EasyFEAVerif.Props.C10Frame"]
 TRUSTED_EXTRA = [
     "C10: Get_Pmat is translated from the source (literal arrays A, B, D2 and the block assembly [[D1, √2 A], [√2 B, D2]]); normalisation of the axes and the batch (e / e,p) index handling are not translated: they are compared on the real code by the C11 and C10 harnesses",
-    "C10: the full-pipeline statement composes Part 2 / Part 3 with C03 (assembly), C04 (uniqueness) and C05 (schemes are linear in K, C, M); the composition is stated (solution_moves), its instances are exercised on the real code by the harness; beam local axes (_Calc_P) are not modelled; the orientation of the beam derivatives along the fiber is (Props.C10.Fiber, statements pinned by Gen/C10/Fiber.lean); the beam responses themselves are covered by the harness",
+    "C10: the full-pipeline statement composes Part 2 / Part 3 with C03 (assembly), C04 (uniqueness) and C05 (schemes are linear in K, C, M); the composition is stated (solution_moves), its instances are exercised on the real code by the harness; beam local axes are modelled (Props/C10Frame.lean: the yAxis setter and _Calc_P over ℝ with their normalisations, statements pinned by Gen/C10/Frame.lean, closed form / orthonormality / right-handedness / behaviour under rotations and reflections proved; the collinear-default branch is only defined, and the un-normalised construction Model/BeamFrame.lean evaluated by the driver is compared with the frames the real code returns); the orientation of the beam derivatives along the fiber is (Props.C10.Fiber, statements pinned by Gen/C10/Fiber.lean); the beam responses themselves are covered by the harness",
 ]
 ASSUMPTIONS = ["Mesh.Rotate / Symmetry / Translate apply the orthogonal map to every node of every element group (checked on the real code against an independent Rodrigues / Householder matrix)"]
 
 
 def generate(repo, lean_dir):
     d = gen_c10.write(repo, os.path.join(lean_dir, "EasyFEAVerif", "Gen", "C10"))
-    return dict(model="generated Gen/C10/Pmat.lean + hand-written Model/KelvinRot.lean, Model/Patch.lean", tie="translation + correspondence", extracted=d)
+    return dict(model="generated Gen/C10/Pmat.lean + hand-written Model/KelvinRot.lean, Model/Patch.lean, Model/BeamFrame.lean", tie="translation + correspondence", extracted=d)
